@@ -106,6 +106,13 @@ def record_bip39(run: Run, rnd: random.Random, thorough: bool, evs: list[dict[st
                 s3 = " ".join(words[:-1])
                 b3 = outcome(lambda: bip39.entropy_from_mnemonic(s3, lang))
                 evs.append({"op": "bip39dec", "indexes": indexes(s3, lang) or [], "lang": lang, "out": b3 if b3 == "refused" or str(b3).startswith("foreign") else "accepted", "kind": "short"})
+            # the same entropy in its other spellings: an integer (zero included: it is the all-zero entropy of that size, not "none given") and a string of bits
+            for ent in (bytes(size), b"\x00" * (size - 1) + b"\x01", ents[3]):
+                bits = bin(int.from_bytes(ent, "big"))[2:].zfill(8 * size)
+                for spelled, what in ((bits, "bit string"),) + (((int.from_bytes(ent, "big"), "integer"),) if size == 16 else ()):   # (an integer has no length of its own: it names the shortest size)
+                    m = outcome(lambda: bip39.mnemonic_from_entropy(spelled, lang))
+                    idx = indexes(m, lang) if isinstance(m, str) and m != "refused" and not m.startswith("foreign") else None
+                    evs.append({"op": "bip39enc", "entropy": ent.hex(), "indexes": idx if idx is not None else [], "lang": lang, "kind": f"entropy given as {what}", "err": "" if idx is not None else str(m)})
             # seeds: every passphrase on one sentence per language and size (PBKDF2 is the cost)
             if size in (16, 32) or thorough:
                 m = bip39.mnemonic_from_entropy(ents[-1], lang)
@@ -188,7 +195,7 @@ def record_slip39(run: Run, rnd: random.Random, thorough: bool, evs: list[dict[s
         for gt, groups in (configs if thorough else configs[:3]):
             ext = rnd.random() < 0.5
             e = rnd.choice([0, 0, 1])
-            pw = rnd.choice(["", "TREZOR", "a b~"])
+            pw = ["", "TREZOR", "a b~", " ~!}"][(lengths.index(n_bytes) + gt + len(groups)) % 4]      # (every printable ASCII character is a passphrase character, the first and the last included)
             secret = rnd.randbytes(n_bytes)
             counter = itertools.count(1)
             mn_groups = outcome(lambda: slip39.mnemonics_from_master_secret(secret, groups, gt, pw, e, ext, lambda n: bytes((next(counter) * 37 + k * 11) % 256 for k in range(n))))
@@ -335,6 +342,18 @@ def check(run: Run) -> None:
     s2 = record_electrum(run, rnd, thorough, evs)
     s3 = record_slip39(run, rnd, thorough, evs, model_shares)
     n85 = record_bip85(run, rnd, thorough, evs)
+    # BIP85's applications (the language numbers of 39', WIF, xprv) recomputed from the BIP's path table by the BIP32 specification
+    from . import c07
+
+    evs85 = [e for e in c07.record_more(run, thorough) if e["op"] == "bip85"]
+    r85, bad85, diag85 = events.validate("C07Trace", evs85, batch=300, timeout=3000)
+    for r in r85:
+        run.tlc(r, "V C07Trace (BIP85 applications)")
+    for k in bad85:
+        e = evs85[k]
+        run.violation(f"mnemonics|bip85|{e['app']}|{e.get('lang', '')}", f"bip85 {e['app']} ({e.get('lang')}, {e.get('words')} words, index {e.get('index')}): btclib {e['out'][:40]}, the BIP's path gives {str(diag85.get(k))[:80]}",
+                      {"event": e, "expected": str(diag85.get(k))[:400]})
+    n85 += len(evs85)
     n_disp = record_dispatch(run, rnd, thorough, evs)
     keep = ("lang", "in_list", "idx", "slip_idx", "first", "op", "entropy", "indexes", "out", "text", "pass", "norm", "nwords", "base", "normpass", "mnemonics", "refused", "key", "msg", "secret")
     compact = [{k: v for k, v in e.items() if k in keep} for e in evs]
@@ -360,7 +379,7 @@ def replay(path: str) -> int:
     e = body.get("event")
     if not e:
         return 0
-    results, bad, diag = events.validate("C13Trace", [e], workers=1)
+    results, bad, diag = events.validate("C07Trace" if e.get("op") == "bip85" else "C13Trace", [e], workers=1)
     if bad:
         print(f"VIOLATION property=C13 replay={path}  # recorded event not explained by the specification; expected {str(diag.get(0))[:300]}")
         return 1
